@@ -49,7 +49,7 @@ PROPS['C19'] = dict(
 
 PROPS['C20'] = dict(
     props='props/C20.v',
-    models=['Dex', 'DexCheck'],
+    models=['Dex', 'DexCheck', 'Ledger'],
     harness='c20',
     args=dict(quick=['-fn', '600', '-swap', '200', '-withdraw', '200', '-deposit', '200'],
               thorough=['-fn', '6000', '-swap', '3000', '-withdraw', '3000', '-deposit', '3000']),
@@ -160,4 +160,93 @@ PROPS['C03'] = dict(
     trusted_base=['model/Trie.v (see C08); model/Paths.v states only that all execution paths must agree'],
     level_text='Theorems: the state root does not depend on the iteration order of the pending-operation map nor on the schedule of the 8 parallel subtree workers (unbounded, over the trie model tied to the real SMT by C08\'s correspondence). The execution-path clause (propose / validate / commit-cached / commit-replay / restart yield a bit-identical header) is decided by running all five paths on real nodes for generated chains and comparing headers: differential validation, labelled partial.',
     level_note='Partial: for the state machine and controller the claim rests on the multi-path differential run, not on a proof; the proved part is the commit algorithm.',
+)
+
+PROPS['C10'] = dict(
+    props='props/C10.v',
+    models=['VStore', 'Txn', 'StoreModel'],
+    harness='c10',
+    args=dict(quick=['-programs', '150', '-ops', '60'], escalated=['-programs', '400', '-ops', '70'], thorough=['-programs', '2500', '-ops', '90']),
+    fingerprint_groups=['Store', 'Keys'],
+    rule='random store programs on the REAL store.Store (pebble in memory): set / delete / get / forward and reverse prefix iteration / nested '
+         'transactions with flush or discard (up to depth 3) / commit / reset / historical get and iteration through NewReadOnly(v) at every '
+         'committed version (re-queried after later commits) / rollback, over two prefix-free key families with shared prefixes of several depths '
+         '(keys differing only in the last byte incl. 0x00/0xFF, prefixes ending in an empty segment), many versions per key, tombstones, '
+         'physical no-op actions (memtable flush, full compaction) in between; every observation is compared with the executable store model '
+         '(M) and with the simple versioned map (V); distinct by program literal, a program is non-trivial when it commits at least twice and '
+         'iterates at least once',
+    modelled='hand-modelled: VersionedStore get / iterator (seek and linear, forward and reverse: first, advanceToNextKey, rewindToLatestVersion, '
+             'step), the inverted-version key layout, Txn write-set + merge iterator (TxnIterator), Store.NewTxn / Flush / Discard / Commit (latest-state '
+             'partition at version MAX with tombstone purge + historical partition) / Reset / NewReadOnly / Rollback. Generated from source: partition '
+             'prefixes and key constants (via C19). Not modelled: pebble itself (sorted map with SeekGE / SeekLT / Next / Prev, assumed), block-property '
+             'filters and compaction (exercised as physical no-op actions by the harness), the state-commitment tree (C08/C16), the indexer (C11).',
+    assumptions=['store keys are length-prefixed and form a prefix-free family (proved for the state keys in C19; the store panics on other keys)',
+                 'pebble behaves as a sorted byte-string map', 'fewer than 2^64-2 versions'],
+    trusted_base=['model/VStore.v, model/Txn.v, model/StoreModel.v are hand-written mirrors of store/versioned_store.go, store/txn.go, store/store.go tied by the correspondence run on the real store'],
+    level_text='Unbounded refinement theorem: for every well-formed program (any length, nesting, versions) the store state machine - real iterator algorithms included, all four strategies - returns exactly what a simple versioned map returns; committed versions are immutable under all later operations incl. rollback to a later version. The executable model is compared with the real store.Store on random programs on every check.',
+    level_note='Trusted: Coq kernel, hand-written mirrors tied by correspondence, pebble as a sorted map. Committee / block immutability as of a height follows from state immutability only through C13/C11 (not restated here).',
+)
+
+_LEDGER_RULE = ('(tx) generated ledger states on a REAL fsm.StateMachine (validators, delegates, paused / unstaking members, accounts incl. empty and '
+                'near-2^64 balances, open sell orders with escrow) and stateful transactions of the 11 modelled kinds (send, stake, edit-stake, '
+                'unstake, pause, unpause, subsidy, DAO transfer, create / edit / delete order) with valid, boundary and invalid amounts, applied one by '
+                'one through ApplyTransactions; the full ledger scan before and after is compared with the model (M) and judged by the property '
+                'predicates (V); (fail) failing transactions of ALL kinds incl. unmodelled ones (certificate results, parameter changes, DEX messages): '
+                'scan before = scan after, parameters included; (chain) real multi-block chains with rewards, scripted non-signers and double-signers '
+                '(slashes incl. 100% and stake rounding to zero), governance parameter changes, auto-compounding, deferred unstaking and max-pause '
+                'firing at later heights: scan after every block judged by the predicates, and every block must be producible; distinct by literal; '
+                'non-trivial: transactions that were applied, blocks with at least one transaction or slash')
+_LEDGER_MODELLED = ('hand-modelled (model/Ledger.v): accounts, pools, validators, supply tallies, unstaking / paused markers, sell orders; handlers of 11 '
+                    'message kinds, ApplyTransaction (fee, nested transaction discarded on error), SlashValidator, ForceUnstakeMaxPaused, '
+                    'DeleteFinishedUnstaking, DeleteValidator. Generated from source: SafeMulDiv / percent helpers, pool id addends, MaxChainId. NOT in the '
+                    'model (judged by the predicates on scans of the real chain only): block mint and reward distribution, certificate-result processing, '
+                    'committee swaps, parameter changes, the DEX pipeline (C20 has its own model), vesting, faucet.')
+
+PROPS['C04'] = dict(
+    props='props/C04.v',
+    models=['Ledger', 'LedgerCheck'],
+    harness='c04',
+    args=dict(quick=['-prop', '4', '-states', '8', '-txs', '30', '-chains', '3', '-blocks', '20'],
+              escalated=['-prop', '4', '-states', '20', '-txs', '40', '-chains', '6', '-blocks', '30'],
+              thorough=['-prop', '4', '-states', '80', '-txs', '50', '-chains', '24', '-blocks', '45']),
+    fingerprint_groups=['Ledger'],
+    rule=_LEDGER_RULE,
+    modelled=_LEDGER_MODELLED,
+    assumptions=['amounts and fees are uint64', 'the total supply stays below 2^64 (stated as a hypothesis of the history theorem; the implementation checks additions to the total)',
+                 'order ids are transaction hashes: a created order never reuses the id of an open order', 'slashes name committee members, not delegates'],
+    trusted_base=['model/Ledger.v is a hand-written mirror of the fsm ledger primitives and handlers tied by the transaction-level correspondence run on the real FSM'],
+    level_text='Unbounded theorems over the ledger model: on every state reachable by any history of transactions (applied or failed), slashes and deferred end-block actions the recorded total equals accounts + pools + stakes and nothing wraps; a transaction changes the total only by the DAO mint it carries, a slash burns exactly what the validator loses, the deferred actions only move tokens. The model is compared with the real FSM transaction by transaction on every check; block mint, rewards, parameter changes and the DEX are outside the model and are judged on scans of real generated chains by the same predicate (partial).',
+    level_note='Partial: the mint/reward/certificate-result part of the property is validated by the chain-level predicate on real chains, not proved. Trusted: Coq kernel, translator, hand-written mirror tied by correspondence.',
+)
+PROPS['C07'] = dict(
+    props='props/C07.v',
+    models=['Ledger', 'LedgerCheck'],
+    harness='c04',
+    args=dict(quick=['-prop', '7', '-states', '8', '-txs', '30', '-chains', '2', '-blocks', '12'],
+              escalated=['-prop', '7', '-states', '20', '-txs', '40', '-chains', '4', '-blocks', '20'],
+              thorough=['-prop', '7', '-states', '80', '-txs', '50', '-chains', '12', '-blocks', '30']),
+    fingerprint_groups=['Ledger', 'Exec'],
+    rule=_LEDGER_RULE,
+    modelled=_LEDGER_MODELLED + ' For C07 the store-level half (a discarded nested transaction vanishes) is proved in C10; events, indexes and in-memory '
+             'trackers are compared by the harness through the full scan (state, parameters, supply) and the side-state hook (VerifSideState).',
+    assumptions=['the nested store transaction of ApplyTransaction is discarded on error (proved of the store model in C10: PDiscard)'],
+    trusted_base=['model/Ledger.v apply_tx mirrors ApplyTransaction; tied by correspondence and by the failed-transaction no-trace cases of every message kind'],
+    level_text='Theorems: a transaction failing at any step (fee, any primitive of any handler) leaves the ledger untouched, hence a block equals the sequential application of exactly its successful transactions (unbounded, ledger model); the store-level discard semantics is C10. On the real FSM failing transactions of all 16 kinds, at failure points after fee deduction and after partial effects, are checked to leave the full scan unchanged. Rejection of proposals / peer blocks leaving committed and working state unchanged is exercised by C03\'s speculative-validation path; partial.',
+    level_note='Partial: caches, events and trackers are outside the model and compared by scan; block-level rejection is exercised, not proved.',
+)
+PROPS['C12'] = dict(
+    props='props/C12.v',
+    models=['Ledger', 'LedgerCheck'],
+    harness='c04',
+    args=dict(quick=['-prop', '12', '-states', '8', '-txs', '30', '-chains', '3', '-blocks', '24'],
+              escalated=['-prop', '12', '-states', '20', '-txs', '40', '-chains', '6', '-blocks', '36'],
+              thorough=['-prop', '12', '-states', '80', '-txs', '50', '-chains', '24', '-blocks', '50']),
+    fingerprint_groups=['Ledger'],
+    rule=_LEDGER_RULE,
+    modelled=_LEDGER_MODELLED,
+    assumptions=['heights and deferred heights do not wrap (height + unstaking blocks < 2^64)', 'a validator lists each committee once (Check of stake messages)',
+                 'slashes name committee members, not delegates (SlashValidator is not delegate-aware: observation O-7)'],
+    trusted_base=['model/Ledger.v (see C04)'],
+    level_text='Unbounded theorems over the ledger model: on every reachable state the total / delegated / per-committee tallies equal the sums over validator records and the unstaking / paused markers are exactly the validators in that status; from such a state no admissible history can fail - finish-unstaking, force-unstake and slashes always succeed at every future height (the old DeleteValidator is proved to wedge). The model is compared with the real FSM per transaction; on real chains every block must be producible and every scan consistent. Parameter changes and reward compounding are judged on the real chains only (partial).',
+    level_note='Partial for governance parameter changes, auto-compounding rewards and non-sign windows (outside the model; exercised on real chains).',
 )
